@@ -255,3 +255,7 @@ fn test_hsl_blue_magenta() {
 
 #[cfg(test)]
 use crate::variablescope::test::do_evaluate;
+
+#[cfg(kani)]
+#[path = "/verif/kani/colorfns.rs"]
+mod kani_verif;
